@@ -765,7 +765,7 @@ func init() {
 		ID:    "C13",
 		Level: "fault_enumeration",
 		Rule: "crash monitor over every interruption point: for each dump, LoadProg of every proper prefix (cut 0..len-1; for dumps > 4000 bytes: first/last 600 bytes, 4096-byte buffer edges and a sample), through a whole-slice reader and a one-byte reader, must return a non-nil error and must not panic; prefixes are also produced the way a crash does (Dump into a writer that fails after k bytes). " +
-			"Plus all 65536 magic values and all 65536 (major, minor) pairs in front of a valid body: accepted iff magic = FC 6C, major = 1, minor <= 1. " +
+			"Plus all 65536 magic values and all 65536 (major, minor) pairs in front of a valid body: accepted iff magic = FC 6C, major = 1, minor <= 1; a valid dump behind 100 kinds of leading junk (shebang lines, comments, blanks, NULs, byte order marks, other headers) must be refused. " +
 			"distinct = hash(dump, cut); non-trivial = the cut lies inside a dump that loads when complete Load modes: whole slice, one byte per read, whole with disassembly and statistics on, and a bytes.Reader from which a preamble was consumed. Also dumps with more than 65536 line feeds / code bytes and with 5-byte offsets (source beyond 16 MiB).",
 		Assumptions:   []string{"the complete dump loads (checked first; C09 covers it)"},
 		MinNontrivial: 1000,
@@ -863,6 +863,32 @@ func init() {
 				}
 				i++
 			}
+			// a valid dump behind something else: the input does not start with the magic bytes
+			if c.Mine(i) && body != nil {
+				c.Begin(i)
+				junk := []string{"#!/usr/bin/env bcl\n", "#!/usr/bin/env -S bcl --bload\n", "#!\n", "#\n", "# bytecode\n", "\n", "\r\n", " ", "\t", "\x00", "\xef\xbb\xbf", "\xff\xfe", "\xfc", "\x6c", "\x6c\xfc",
+					"\xfc\x6c\x01", "\x1f\x8b\x08\x00", "BCL\x00", "//\n", ";", "\xfc\x6c\x02\x00junk", string(body[:len(body)-1])}
+				for k := 1; k < 40; k++ {
+					junk = append(junk, strings.Repeat("\x00", k), strings.Repeat("\n", k))
+				}
+				for _, j := range junk {
+					d := append([]byte(j), body...)
+					if len(d) >= 2 && d[0] == 0xFC && d[1] == 0x6C {
+						continue // starts with the magic bytes after all: C13 says nothing
+					}
+					for _, one := range []bool{false, true} {
+						err, pan, _, _ := c13Load(d, one)
+						c.Eval(1)
+						if pan != "" || err == nil {
+							c.Violation("header-magic", fmt.Sprintf("a valid dump behind %q does not start with the magic bytes but: err=%v panic=%q", j, err, pan), nil)
+							break
+						}
+						c.Count("dumps_behind_leading_junk_tried", 1)
+					}
+				}
+				c.Nontrivial(core.Hash("leading-junk"))
+			}
+			i++
 			n := int64(c.Pick(3000, 200000))
 			for k := int64(0); k < n; k++ {
 				if c.Mine(i) {
